@@ -110,7 +110,7 @@ def _cpack(what, name, pz, h0, sp, zp, s0, z0, s1, z1, early, target):
             return False
         if not w.c.validate().is_valid():
             return False
-        return views_ok(w.c, w, objs, ABSENT)
+        return views_ok(w.c, w, objs, ABSENT) and chunked_ok(w.c, w, objs)
     finally:
         w.cleanup()
 
@@ -234,44 +234,116 @@ def should_modes(mode: int, source_compressed: bool, length: int, size: int, spo
     return _should(('yes', 'no', 'keep')[mode], source_compressed, length, size, spos, zs, z)
 
 
-def should_auto_packed_0(length: int, spos: int, zs: int, z: int) -> bool:
+def should_auto_packed_0_0(spos: int, zs: int, z: int) -> bool:
     """
-    pre: 0 <= length <= 300000 and 0 <= spos <= 0 and 1 <= zs <= 300000 and 2 <= z <= 300000
+    pre: 0 <= spos <= 0 and 1 <= zs <= 300000 and 2 <= z <= 300000
     post: _
     """
-    return _should('auto', True, length, 0, spos, zs, z)
+    return _should('auto', True, 0, 0, spos, zs, z)
 
 
-def should_auto_packed_1(length: int, spos: int, zs: int, z: int) -> bool:
+def should_auto_packed_0_5(spos: int, zs: int, z: int) -> bool:
     """
-    pre: 0 <= length <= 300000 and 0 <= spos <= 1 and 1 <= zs <= 300000 and 2 <= z <= 300000
+    pre: 0 <= spos <= 0 and 1 <= zs <= 300000 and 2 <= z <= 300000
     post: _
     """
-    return _should('auto', True, length, 1, spos, zs, z)
+    return _should('auto', True, 5, 0, spos, zs, z)
 
 
-def should_auto_packed_10(length: int, spos: int, zs: int, z: int) -> bool:
+def should_auto_packed_1_0(spos: int, zs: int, z: int) -> bool:
     """
-    pre: 0 <= length <= 300000 and 0 <= spos <= 10 and 1 <= zs <= 300000 and 2 <= z <= 300000
+    pre: 0 <= spos <= 1 and 1 <= zs <= 300000 and 2 <= z <= 300000
     post: _
     """
-    return _should('auto', True, length, 10, spos, zs, z)
+    return _should('auto', True, 0, 1, spos, zs, z)
 
 
-def should_auto_packed_1000(length: int, spos: int, zs: int, z: int) -> bool:
+def should_auto_packed_1_1(spos: int, zs: int, z: int) -> bool:
     """
-    pre: 0 <= length <= 300000 and 0 <= spos <= 1000 and 1 <= zs <= 300000 and 2 <= z <= 300000
+    pre: 0 <= spos <= 1 and 1 <= zs <= 300000 and 2 <= z <= 300000
     post: _
     """
-    return _should('auto', True, length, 1000, spos, zs, z)
+    return _should('auto', True, 1, 1, spos, zs, z)
 
 
-def should_auto_packed_299999(length: int, spos: int, zs: int, z: int) -> bool:
+def should_auto_packed_10_8(spos: int, zs: int, z: int) -> bool:
     """
-    pre: 0 <= length <= 300000 and 0 <= spos <= 299999 and 1 <= zs <= 300000 and 2 <= z <= 300000
+    pre: 0 <= spos <= 10 and 1 <= zs <= 300000 and 2 <= z <= 300000
     post: _
     """
-    return _should('auto', True, length, 299999, spos, zs, z)
+    return _should('auto', True, 8, 10, spos, zs, z)
+
+
+def should_auto_packed_10_9(spos: int, zs: int, z: int) -> bool:
+    """
+    pre: 0 <= spos <= 10 and 1 <= zs <= 300000 and 2 <= z <= 300000
+    post: _
+    """
+    return _should('auto', True, 9, 10, spos, zs, z)
+
+
+def should_auto_packed_10_10(spos: int, zs: int, z: int) -> bool:
+    """
+    pre: 0 <= spos <= 10 and 1 <= zs <= 300000 and 2 <= z <= 300000
+    post: _
+    """
+    return _should('auto', True, 10, 10, spos, zs, z)
+
+
+def should_auto_packed_1000_0(spos: int, zs: int, z: int) -> bool:
+    """
+    pre: 0 <= spos <= 1000 and 1 <= zs <= 300000 and 2 <= z <= 300000
+    post: _
+    """
+    return _should('auto', True, 0, 1000, spos, zs, z)
+
+
+def should_auto_packed_1000_899(spos: int, zs: int, z: int) -> bool:
+    """
+    pre: 0 <= spos <= 1000 and 1 <= zs <= 300000 and 2 <= z <= 300000
+    post: _
+    """
+    return _should('auto', True, 899, 1000, spos, zs, z)
+
+
+def should_auto_packed_1000_900(spos: int, zs: int, z: int) -> bool:
+    """
+    pre: 0 <= spos <= 1000 and 1 <= zs <= 300000 and 2 <= z <= 300000
+    post: _
+    """
+    return _should('auto', True, 900, 1000, spos, zs, z)
+
+
+def should_auto_packed_1000_901(spos: int, zs: int, z: int) -> bool:
+    """
+    pre: 0 <= spos <= 1000 and 1 <= zs <= 300000 and 2 <= z <= 300000
+    post: _
+    """
+    return _should('auto', True, 901, 1000, spos, zs, z)
+
+
+def should_auto_packed_1000_1200(spos: int, zs: int, z: int) -> bool:
+    """
+    pre: 0 <= spos <= 1000 and 1 <= zs <= 300000 and 2 <= z <= 300000
+    post: _
+    """
+    return _should('auto', True, 1200, 1000, spos, zs, z)
+
+
+def should_auto_packed_299999_269999(spos: int, zs: int, z: int) -> bool:
+    """
+    pre: 0 <= spos <= 299999 and 1 <= zs <= 300000 and 2 <= z <= 300000
+    post: _
+    """
+    return _should('auto', True, 269999, 299999, spos, zs, z)
+
+
+def should_auto_packed_299999_270000(spos: int, zs: int, z: int) -> bool:
+    """
+    pre: 0 <= spos <= 299999 and 1 <= zs <= 300000 and 2 <= z <= 300000
+    post: _
+    """
+    return _should('auto', True, 270000, 299999, spos, zs, z)
 
 
 def should_auto_plain_0(spos: int, worth: bool) -> bool:
